@@ -557,6 +557,14 @@ func (ex *Exec) unsafeCast(fr *frame, up UnsafePtr, dst types.Type) Value {
 		}
 		// *[]byte -> *string (strings.Builder, unsafe string conversion): not a shared cell
 	}
+	// map[K]any <-> map[K]SomeInterface (gen.Object pun in alt.GenAlter): same cell
+	if m1, ok := up.Elem.Underlying().(*types.Map); ok {
+		if m2, ok := dst.Underlying().(*types.Map); ok {
+			if types.Identical(m1.Key(), m2.Key()) && isInterface(m1.Elem()) && isInterface(m2.Elem()) {
+				return p
+			}
+		}
+	}
 	// *float64 <-> *uint64 (math.Float64bits-like)
 	unsupported("unsafe cast *%v -> *%v", up.Elem, dst)
 	return nil
